@@ -127,7 +127,7 @@ func valEq(a, b interface{}) bool { return coqValue(a) == coqValue(b) }
 func init() {
 	register(&PropDef{
 		ID:   "C02",
-		Rule: "random typed trees (no failing variables; operators may fail, e.g. division by zero behind guards) x ALL 16 optimisation subsets set programmatically and again by `;;;;` directive comments x cost maps (integers incl. negative, zero, 2^40) x stateless declarations x bindings of all variables: (a) all configurations that return a value return the same one, (b) with Reordering off every configuration returns the unoptimised value when that evaluation succeeds, (c) directive and programmatic configuration give the same Dump and result, (d) Go's optimised tree equals the model's `optimize` and its Eval equals `sem` of it; non-trivial = at least two configurations returned a value; distinct = distinct (source, costs, binding)",
+		Rule: "random typed trees (no failing variables; operators may fail, e.g. division by zero behind guards) x ALL 16 optimisation subsets set programmatically and again by `;;;;` directive comments x cost maps (integers incl. negative, zero, 2^40) x stateless declarations x bindings of all variables: (a) all configurations that return a value return the same one, (b) with Reordering off every configuration returns the unoptimised value when that evaluation succeeds, (c) directive and programmatic configuration give the same Dump and result, (d) Go's optimised tree equals the model's `optimize` and its Eval equals `sem` of it, (e) ONE configuration object compiles directive-carrying sources and then the directive-free source (directives must not stick); constants of the configuration of a non-canonical Go type (a plain int, modelled as an opaque value); operators registered under built-in names; non-trivial = at least two configurations returned a value; distinct = distinct (source, costs, binding)",
 		Assumptions: []string{"cost maps are integer-valued (exact in float64); NaN/Inf costs are covered by the theorem for arbitrary permutations, not by the correspondence"},
 		Behav:       []int{5, 2, 17}, Fidelity: []int{1, 3, 4, 8, 9, 10, 15}, Ignore: []int{6, 7, 50, 16}, CodeText: evalCodeText,
 		Gen: func(c *RunCtx) []*Batch {
